@@ -111,6 +111,7 @@ pub fn entries() -> &'static Vec<Entry> {
             entry::<RegionSut<PairsCodec>>(),
             entry::<RegionSut<ColsUnitVec>>(),
             entry::<RegionSut<CollapseCodec>>(),
+            entry::<RegionSut<OptOwnedU8>>(),
             entry::<RegionSut<UserCodecReg>>(),
             entry::<RegionSut<StrUserCodec>>(),
             entry::<RegionSut<CollapseUserCodec>>(),
